@@ -25,7 +25,17 @@
 (*  - pickling an instance or the builder changes nothing observable;      *)
 (*  - an actor is stateful exactly when it has a train implementation (ht) *)
 (*    and a stateless one never acquires a model nor exports a state;      *)
-(*  - builder, instances and exported states do not alias each other.      *)
+(*  - builder, instances and exported states do not alias each other;       *)
+(*  - a program driving the actors through flow.Functor executes functor   *)
+(*    OBJECTS: a functor holds one builder and every execution acts on an  *)
+(*    actor rebuilt from that builder (+ the params / state presets passed *)
+(*    to that very execution).  The program is free to execute ONE functor *)
+(*    object many times, for every instance / rebuild that has the same    *)
+(*    builder (`car`, the carrier chosen by Build), and to pickle it in    *)
+(*    between: a functor has no memory, so the choice of the carrier is    *)
+(*    unobservable (FunctorHasNoMemory) - an instance rebuilt on a used    *)
+(*    carrier is untrained and runs on the builder's params, exactly as on *)
+(*    a new one.  Through the direct actor API the carrier is meaningless. *)
 (*                                                                         *)
 (* Silent region (excluded by the enabling conditions, see SetState): the  *)
 (* state exported by an UNTRAINED twin given to a TRAINED actor (flavours  *)
@@ -45,9 +55,11 @@ VARIABLES ht,      \* has train
           inst,    \* Inst -> [built, params, model]
           snap,    \* Inst -> last state exported by GetState(j): [has, model, params]
           sync, fed, bp,   \* provenance (ghosts used only by the invariants)
+          car, bk,         \* Inst -> functor object (carrier id, 0 = none) executing instance i / the builder kwargs it holds;
+                           \* a free choice of the program that no observation depends on (hidden by VIEW)
           hist, out        \* call history / last apply result (hidden by VIEW)
 view == <<ht, bld, inst, snap, sync, fed, bp>>
-vars == <<ht, bld, inst, snap, sync, fed, bp, hist, out>>
+vars == <<ht, bld, inst, snap, sync, fed, bp, car, bk, hist, out>>
 
 Absent == 99
 Keys == 1..NP
@@ -80,35 +92,45 @@ Init == /\ ht \in HTS
         /\ snap = [i \in Inst |-> NoSnap]
         /\ sync = [i \in Inst |-> 0] /\ fed = [i \in Inst |-> FALSE]
         /\ bp = [i \in Inst |-> IF i = 1 THEN Resolve(bld) ELSE Defaults]
-        /\ hist = <<Ev(IF ht THEN "stateful" ELSE "stateless", 0, 0, 0, bld), Ev("build", 1, 0, 0, NoP)>>
+        /\ car = [i \in Inst |-> IF i = 1 THEN 2 ELSE 0] /\ bk = [i \in Inst |-> IF i = 1 THEN bld ELSE NoP]
+        /\ hist = <<Ev(IF ht THEN "stateful" ELSE "stateless", 0, 0, 0, bld), Ev("build", 1, 2, 0, NoP)>>
         /\ out = NoOut
 
 ---------------------------------------------------------------------------
 \* builder.update(**p): a NEW builder; instances built earlier are unaffected
 Update(p) == /\ bld' = Merge(bld, p) /\ Log(Ev("update", 0, 0, 0, p))
-             /\ UNCHANGED <<ht, inst, snap, sync, fed, bp, out>>
+             /\ UNCHANGED <<ht, inst, snap, sync, fed, bp, car, bk, out>>
 \* builder.reset(**p)
 Reset(p) == /\ bld' = p /\ Log(Ev("reset", 0, 0, 0, p))
-            /\ UNCHANGED <<ht, inst, snap, sync, fed, bp, out>>
-\* inst[i] := builder(**ov)   (a fresh, untrained actor; an earlier snapshot snap[i] stays valid as bytes)
-Build(i, ov) == /\ inst' = [inst EXCEPT ![i] = [built |-> TRUE, params |-> Resolve(Merge(bld, ov)), model |-> <<>>]]
+            /\ UNCHANGED <<ht, inst, snap, sync, fed, bp, car, bk, out>>
+\* the functor objects the program may execute for an actor of builder kwargs b: every live one holding exactly b
+\* (also the one that carried instance i so far) or a new one (identified by the position of the build call)
+Reusable(b) == {car[k] : k \in {n \in Inst : inst[n].built /\ bk[n] = b}}
+Carriers(ov) == Reusable(Merge(bld, ov)) \cup {Len(hist) + 1}
+\* inst[i] := builder(**ov)   (a fresh, untrained actor; an earlier snapshot snap[i] stays valid as bytes);
+\* through flow.Functor: instance i is from now on executed by the functor object c with empty presets
+BuildOn(i, ov, c) ==
+                /\ c \in Carriers(ov)
+                /\ inst' = [inst EXCEPT ![i] = [built |-> TRUE, params |-> Resolve(Merge(bld, ov)), model |-> <<>>]]
+                /\ car' = [car EXCEPT ![i] = c] /\ bk' = [bk EXCEPT ![i] = Merge(bld, ov)]
                 /\ sync' = [sync EXCEPT ![i] = 0] /\ fed' = [fed EXCEPT ![i] = FALSE]
                 /\ bp' = [bp EXCEPT ![i] = Resolve(Merge(bld, ov))]
-                /\ Log(Ev("build", i, 0, 0, ov))
+                /\ Log(Ev("build", i, c, 0, ov))
                 /\ UNCHANGED <<ht, bld, snap, out>>
+Build(i, ov) == \E c \in Carriers(ov) : BuildOn(i, ov, c)
 \* inst[i].train(x_d, y_d): incremental, under the params in force
 Train(i, d) == /\ ht /\ inst[i].built
                /\ inst' = [inst EXCEPT ![i].model = Append(@, [p |-> inst[i].params, d |-> d])]
                /\ sync' = [sync EXCEPT ![i] = 0] /\ fed' = [fed EXCEPT ![i] = TRUE]
                /\ Log(Ev("train", i, 0, d, NoP))
-               /\ UNCHANGED <<ht, bld, snap, bp, out>>
+               /\ UNCHANGED <<ht, bld, snap, bp, car, bk, out>>
 \* snap[i] := inst[i].get_state()  (an immutable value; may also carry the params of the exporter)
 GetState(i) == /\ inst[i].built
                /\ LET s == [has |-> TRUE, params |-> inst[i].params, model |-> inst[i].model] IN
                     /\ snap' = [snap EXCEPT ![i] = s]
                     /\ sync' = [k \in Inst |-> IF sync[k] = i /\ s.model # snap[i].model THEN 0 ELSE sync[k]]
                /\ Log(Ev("getstate", i, 0, 0, NoP))
-               /\ UNCHANGED <<ht, bld, inst, fed, bp, out>>
+               /\ UNCHANGED <<ht, bld, inst, fed, bp, car, bk, out>>
 \* inst[i].set_state(snap[j]) (directly or through flow.Functor.preset_state): model from the state, params kept
 SetState(i, j) == /\ inst[i].built /\ snap[j].has
                   /\ snap[j].model # <<>> \/ inst[i].model = <<>>      \* silent region excluded (see header)
@@ -116,29 +138,29 @@ SetState(i, j) == /\ inst[i].built /\ snap[j].has
                   /\ sync' = [sync EXCEPT ![i] = j]
                   /\ fed' = [fed EXCEPT ![i] = (snap[j].model # <<>>)]
                   /\ Log(Ev("setstate", i, j, 0, NoP))
-                  /\ UNCHANGED <<ht, bld, snap, bp, out>>
+                  /\ UNCHANGED <<ht, bld, snap, bp, car, bk, out>>
 \* inst[i].set_state(b''): nothing happens
 SetEmpty(i) == /\ inst[i].built
                /\ Log(Ev("setempty", i, 0, 0, NoP))
-               /\ UNCHANGED <<ht, bld, inst, snap, sync, fed, bp, out>>
+               /\ UNCHANGED <<ht, bld, inst, snap, sync, fed, bp, car, bk, out>>
 \* inst[i].set_params(**p)
 SetParams(i, p) == /\ inst[i].built
                    /\ inst' = [inst EXCEPT ![i].params = Merge(@, p)]
                    /\ bp' = [bp EXCEPT ![i] = Merge(@, p)]
                    /\ Log(Ev("setparams", i, 0, 0, p))
-                   /\ UNCHANGED <<ht, bld, snap, sync, fed, out>>
+                   /\ UNCHANGED <<ht, bld, snap, sync, fed, car, bk, out>>
 \* inst[i] := loads(dumps(inst[i]))
 Pickle(i) == /\ inst[i].built
              /\ Log(Ev("pickle", i, 0, 0, NoP))
-             /\ UNCHANGED <<ht, bld, inst, snap, sync, fed, bp, out>>
+             /\ UNCHANGED <<ht, bld, inst, snap, sync, fed, bp, car, bk, out>>
 \* builder := loads(dumps(builder))
 PickleB == /\ Log(Ev("pickleb", 0, 0, 0, NoP))
-           /\ UNCHANGED <<ht, bld, inst, snap, sync, fed, bp, out>>
+           /\ UNCHANGED <<ht, bld, inst, snap, sync, fed, bp, car, bk, out>>
 \* out := inst[i].apply(x): a pure observation (changes only the hidden variables)
 Apply(i, x) == /\ inst[i].built
                /\ out' = App(i, x)
                /\ Log(Ev("apply", i, 0, x, NoP))
-               /\ UNCHANGED <<ht, bld, inst, snap, sync, fed, bp>>
+               /\ UNCHANGED <<ht, bld, inst, snap, sync, fed, bp, car, bk>>
 
 Next == \/ \E p \in Deltas : Update(p)
         \/ \E p \in (IF Rich THEN Singles \cup {NoP} ELSE {}) : Reset(p)
@@ -159,6 +181,9 @@ TypeOK == /\ Partial(bld)
           /\ \A i \in Inst : /\ Total(inst[i].params) /\ Total(bp[i]) /\ Total(snap[i].params)
                              /\ \A n \in 1..Len(inst[i].model) : Total(inst[i].model[n].p) /\ inst[i].model[n].d \in Data
                              /\ ~inst[i].built => inst[i] = Unbuilt
+                             /\ car[i] \in Nat /\ Partial(bk[i]) /\ (inst[i].built <=> car[i] # 0)
+\* a functor object holds exactly one builder: instances executed by the same one were built from equal kwargs
+CarrierHoldsBuilder == \A i, k \in Inst : (inst[i].built /\ inst[k].built /\ car[i] = car[k]) => bk[i] = bk[k]
 \* an actor given the state of a twin applies like the twin (as long as the twin still is in the exported
 \* state and the params are equal) - for EVERY input
 TransferEquivalence ==
@@ -182,6 +207,10 @@ EmptyIsNoop == [][E.op = "setempty" => UNCHANGED <<bld, inst, snap>>]_vars
 PickleIsIdentity == [][E.op \in {"pickle", "pickleb"} => UNCHANGED <<bld, inst, snap>>]_vars
 BuilderIsolated == [][bld' # bld => E.op \in {"update", "reset"}]_vars
 SnapshotImmutable == [][\A j \in Inst : snap'[j] # snap[j] => (E.op = "getstate" /\ E.i = j)]_vars
+\* whichever functor object carries a (re)built instance - a new one or one that has executed other instances, other
+\* presets, trainings before - the instance is untrained and runs on the params of the builder that functor holds
+FunctorHasNoMemory == [][E.op = "build" => (/\ inst'[E.i] = Fresh(bk'[E.i]) /\ bp'[E.i] = Resolve(bk'[E.i])
+                                            /\ \A k \in Inst \ {E.i} : inst'[k] = inst[k])]_vars
 SetStateKeepsParams == [][E.op = "setstate" => (inst'[E.i].params = inst[E.i].params /\ inst'[E.i].model = snap[E.j].model)]_vars
 
 \* TLC evaluates the invariants on every state it generates (before the VIEW fingerprint decides whether it is new),
